@@ -215,3 +215,18 @@ CLAIMS["C05"] = {
     "note": "Not decided: that an intercept-only weighted tau=0.5 quantile regression equals the weighted median (elexsolver "
             "semantics, trusted) and uniqueness of the median.",
 }
+
+CLAIMS["C06"] = {
+    "technique": "def-use terms of the bootstrap interval functions (rank helper inlined): which rank of which draw matrix is subtracted "
+                 "for which bound; straddle caps; factor-wise clipping discipline of the stored draw matrices; single-writer / "
+                 "run-once typestate; rank formulas as rational functions with floor / ceil uninterpreted",
+    "level": "Decides for every draw matrix, B, alpha and configuration the shape facts from which ordering and nesting follow: lower "
+             "= pred - Q(high rank), upper = pred - Q(low rank) of one matrix along the draw axis at unit and aggregate level; "
+             "aggregate bounds capped strictly below / above the same prediction; every margin / turnout factor stored in the draw "
+             "matrices and point predictions is clipped with the bounds of the matching quantity after its last update and only "
+             "then weighted; the draws are produced once (single writer behind the run-once guard, per-level functions draw "
+             "nothing), so all levels are quantiles of the same draws; the ranks are the statement's own formulas.",
+    "note": "Not decided: 0 <= low rank <= high rank <= 1 and monotonicity in alpha for all (alpha, B >= 2) (integer/real arithmetic; "
+            "hand proof in DESIGN.md appendix A, not machine-checked) and the numeric range of margins given data (feasible-range "
+            "bounds are data dependent). Called / stop-listed contests are C07's domain.",
+}
